@@ -292,3 +292,77 @@ def gen_ids(seed, opts=None):
                 ia['resp']['pacing'] = round(rng.uniform(0.01, 0.2), 3)
     plan['nontrivial'] = True
     return plan
+
+
+def gen_cut_base(seed, opts=None):
+    """Base plan for connection-loss profiles: a few small pending interactions in both roles.
+    Faults are added by the caller (swarm: one random fault; sweep: every fault point)."""
+    opts = dict(opts or {})
+    rng = random.Random(seed ^ 0xC07)
+    opts.setdefault('n_interactions', [(1, 1), (2, 2), (3, 3), (2, 4), (1, 6)])
+    opts.setdefault('fragments', [(3, None), (3, 64), (1, 100)])
+    opts.setdefault('framing', [(1, 'tcp')])
+    opts.setdefault('kinds', [(3, 'rr'), (3, 'stream'), (3, 'channel'), (1, 'fnf')])
+    opts.setdefault('max_count', 6)
+    opts.setdefault('errors', False)
+    opts.setdefault('stall_faults', 0.0)
+    opts.setdefault('cancels', 0.0)
+    plan = gen_core(seed, opts)
+    plan['loop'] = {'eps': _pick(rng, [(3, 0.0), (1, 1e-6)])}
+    plan['client']['keepalive_ms'] = _pick(rng, [(2, 100), (2, 500), (1, 1_000_000)])
+    plan['client']['read_buf'] = plan['server']['read_buf'] = _pick(rng, [(3, 1024), (1, 7), (1, 6 * 1024 * 1024)])
+    for d in ('c2s', 's2c'):
+        pol = plan['link'][d]
+        pol['chunk'] = _pick(rng, [(3, 'all'), (1, 'frame'), (1, 'write'), (1, 'rand')])
+        pol.setdefault('chunk_max', 16)
+        pol['latency'] = _pick(rng, [(3, 0.001), (1, 0.0), (1, 0.004)])
+        pol.pop('gap', None)
+        if pol.get('drain') == 'delay':
+            pol['drain_delay'] = min(pol.get('drain_delay', 0.001), 0.003)
+    for ia in plan['interactions']:
+        ia['at'] = round(rng.uniform(0, 0.01), 4)
+        r = ia.get('req', {})
+        if 'dlen' in r:
+            r['dlen'] = min(r['dlen'] or 0, _pick(rng, [(3, 40), (1, 200)])) or 8
+            r['mlen'] = min(r['mlen'], 100) if r.get('mlen') else r.get('mlen')
+            if (r['dlen'] or 0) < 8 and (r.get('mlen') or 0) < 8:
+                r['dlen'] = 8
+        for sc in (ia.get('resp'), ia.get('pub')):
+            if not sc:
+                continue
+            if 'lens' in sc:
+                sc['lens'] = [[min(a or 0, 150) or 1, (min(b, 80) if b else b)] for a, b in sc['lens']]
+            if 'dlen' in sc:
+                sc['dlen'] = min(sc['dlen'] or 0, 200) or 1
+                sc['mlen'] = min(sc['mlen'], 80) if sc.get('mlen') else sc.get('mlen')
+            if sc.get('pacing') not in (None, 'sync'):
+                sc['pacing'] = min(sc['pacing'], 0.002)
+        # some interactions stay pending for a long time so that the fault finds them open
+        if rng.random() < 0.5:
+            if ia['kind'] == 'rr':
+                ia['resp']['mode'] = _pick(rng, [(2, 'never'), (2, 'delay')])
+                ia['resp']['delay'] = round(rng.uniform(0.01, 0.05), 4)
+            elif ia['kind'] in ('stream', 'channel') and ia['resp'].get('src'):
+                ia['resp']['pacing'] = 0.002
+                ia['resp']['count'] = max(ia['resp'].get('count', 0), 4)
+    plan['horizon'] = 8.0
+    plan['settle'] = 4.0
+    plan['nontrivial'] = True
+    return plan
+
+
+def gen_cut(seed, opts=None):
+    """Swarm variant: base plan plus one connection fault at a random point."""
+    rng = random.Random(seed ^ 0xFA17)
+    plan = gen_cut_base(seed, opts)
+    kind = _pick(rng, [(4, 'cut'), (3, 'close'), (1, 'reset')])
+    if kind == 'cut':
+        plan['faults'].append({'kind': 'cut', 'dir': _pick(rng, [(1, 'c2s'), (1, 's2c')]),
+                               'offset': _pick(rng, [(1, rng.randint(0, 60)), (3, rng.randint(0, 1500))]),
+                               'mode': _pick(rng, [(1, 'eof'), (1, 'reset')])})
+    elif kind == 'close':
+        plan['faults'].append({'kind': 'close', 'who': _pick(rng, [(1, 'client'), (1, 'server')]),
+                               'at': round(0.01 + rng.uniform(0, 0.03), 5), 'hops': rng.randint(0, 5)})
+    else:
+        plan['faults'].append({'kind': 'reset', 'at': round(0.01 + rng.uniform(0, 0.03), 5), 'hops': rng.randint(0, 5)})
+    return plan
